@@ -186,7 +186,7 @@ def run(prop_id, tier, seed, replay=None):
         info = {}
         state = {"n_paths": 0, "unreach": 0, "observed": [], "keep": 3,
                  "verdict": {"violations": [], "known": {}, "n_lines": 0, "wall": 0.0, "raw": 0},
-                 "drift": [0, 0, []]}
+                 "drift": [0, 0, []], "variants": {}}
 
         def replay_chunk(pf):
             t1 = time.time()
@@ -212,6 +212,11 @@ def run(prop_id, tier, seed, replay=None):
             state["drift"][1] += n_drift
             state["drift"][2] = (state["drift"][2] + samples)[:5]
             for t in observed:
+                for st in t["steps"]:
+                    v = st.get("var")
+                    if v:
+                        v = v.split(" ")[0]
+                        state["variants"][v] = state["variants"].get(v, 0) + 1
                 if state["keep"] > 0 and not t.get("error"):
                     state["keep"] -= 1
                     state["observed"].append(t)
@@ -221,6 +226,13 @@ def run(prop_id, tier, seed, replay=None):
         if replay:
             pf = os.path.join(sc, "paths.ndjson")
             family.paths_from_replay(replay, pf)
+            # keep the concrete message variants of the recorded trace
+            rec = [x for x in json.load(open(replay))["trace"]["steps"] if not x.get("note")]
+            d = json.loads(open(pf).read())
+            for st, r in zip(d["steps"], rec):
+                if "vn" in r:
+                    st["vn"] = r["vn"]
+            open(pf, "w").write(json.dumps(d) + "\n")
             state["n_paths"] = 1
             replay_chunk(pf)
             tlc_m, g_m = family._NoTLC(), None
@@ -270,7 +282,8 @@ def run(prop_id, tier, seed, replay=None):
         return family.finish(prop_id, tier, seed, t0, tlc_m, g_m, list(range(state["n_paths"])),
                              state["observed"], state["verdict"], tuple(state["drift"]),
                              {"scenarios": info, "edges_only_reachable_through_model_violation": state["unreach"],
-                              "phases": phases},
+                              "phases": phases,
+                              "response_variants_exercised": dict(sorted(state["variants"].items()))},
                              ASSUMPTIONS[prop_id], label=label)
     finally:
         shutil.rmtree(sc, ignore_errors=True)
